@@ -68,6 +68,15 @@ Section Reader.
     if negb (in_range t target) then Trap 51
     else Ok (mkR target (e_d (ent t target)) target 0 false [] (EvRestart target :: r_trace st)).
 
+  (* the restart branch when its src.seek fails (CHECK_IO): the call returns ERROR(seekableIO).  [cache_first = true] is the
+     code before fix c859e4f: curFrame / decompressedOffset were assigned before the seek while zs->in, the hash state and the
+     decoder were not touched.  [cache_first = false] is the current code: curFrame = (U32)-1 before the seek, the position is
+     recorded only after the seek succeeded. *)
+  Definition restart_seek_failed (cache_first : bool) (st : rstate) (target : N) : rstate :=
+    if cache_first
+    then mkR target (e_d (ent t target)) (d_frame st) (d_prod st) (d_fin st) (r_acc st) (r_trace st)
+    else mkR 4294967295 (r_doff st) (d_frame st) (d_prod st) (d_fin st) (r_acc st) (r_trace st).
+
   (* top of the do { } while : "check if we can continue from a previous decompress job" *)
   Definition prelude (offset : N) (st : rstate) (target : N) : res rstate :=
     if negb (target =? r_cur st) || (offset <? r_doff st) then restart st target else Ok st.
